@@ -330,7 +330,7 @@ def global_rewrites(src, ed, a, b, log, item_ty='usize'):
             while j < b and src.kind[j] == STR:
                 j += 1
             mm = re.compile(r'\s*\.to_string\(\)').match(t, j)
-            before = t[max(a, i - 40):i]
+            before = t[max(a, i - 300):i]
             if mm:
                 ed.add(i, mm.end(), 'verif_msg()', ('rw', 'R3'))
                 log.append('R3')
